@@ -301,7 +301,13 @@ pub fn structural_targeted(prop: &str, r: &mut Rng, corpus: &Corpus, tier: Tier)
                 multibyte_variant(&b, r)
             }
         },
-        "C04" | "C05" => match r.below(6) {
+        "C04" | "C05" => match r.below(7) {
+            6 => {
+                // separator / label neighbourhoods (matters in the macro_sep build: insert_token)
+                let k = r.below(1 << 20);
+                let b = crate::diffprops::diff_input("C18", r.next_u64(), k, tier, corpus);
+                if r.chance(1, 2) { lf_variant(&b, r) } else { b }
+            }
             0 => empty_token_case(r),
             1 => {
                 let b = speculation_case(r);
